@@ -3,7 +3,7 @@ from .. import cases, monitors, oracles
 from . import _align_common as ac
 
 TITLE = "Disorder values follow the definition"
-DECIDING = ["M-DIS", "M-DEF-ALIGN", "M-DEF-UNITARY", "M-SLOT-ORDER", "M-CARRIED-VS-RECOMPUTED"]
+DECIDING = ["M-DIS", "M-DEF-ALIGN", "M-DEF-UNITARY", "M-SLOT-ORDER", "M-CARRIED-VS-RECOMPUTED", "M-AFTER-EDIT"]
 LEVEL = "exploration"
 RULE = ("(A) alignments returned by the library (best / soft / fast with random window sizes) on seeded random continua: "
         "cached Alignment.disorder and carried per-unitary disorders against the float64 definition recomputed from "
@@ -146,6 +146,54 @@ def check_handbuilt(ctx, case):
             else:
                 ctx.fail("unitary:compute-disorder-mismatch", {"got": v1, "definition": refs[k], "n": n, "k": real},
                          monitor="M-DEF-UNITARY")
+    # history on the SAME objects: a unit is moved into an empty slot of another unitary alignment through the public
+    # n_tuple setter, then everything is computed again (stale cached counts / disorders show here)
+    if case.get("edit") and len(al.unitary_alignments) >= 2:
+        uas = al.unitary_alignments
+        moved = False
+        for i in range(len(uas)):
+            for j in range(len(uas)):
+                if i == j or moved:
+                    continue
+                ti, tj = list(uas[i].n_tuple), list(uas[j].n_tuple)
+                slot_i = {a: k for k, (a, _) in enumerate(ti)}
+                for kj, (a2, u2) in enumerate(tj):
+                    ki = slot_i.get(a2)
+                    if ki is not None and u2 is not None and ti[ki][1] is None and sum(1 for _, u in tj if u is not None) >= 2:
+                        ti[ki], tj[kj] = (a2, u2), (a2, None)
+                        uas[i].n_tuple, uas[j].n_tuple = ti, tj
+                        moved = True
+                        break
+        avg2 = avg
+        if not case["attach"] and ctx.rng.random() < 0.6:
+            # without an attached continuum the alignment is its own universe: emptying a slot changes the mean number of
+            # units per annotator the alignment disorder is divided by
+            for ua in uas:
+                t = list(ua.n_tuple)
+                real = [k for k, (_, u) in enumerate(t) if u is not None]
+                if len(real) >= 2:
+                    k = ctx.rng.choice(real)
+                    t[k] = (t[k][0], None)
+                    ua.n_tuple = t
+                    moved = True
+                    avg2 = sum(1 for x in uas for _, u in x.n_tuple if u is not None) / n
+                    break
+        if moved:
+            ctx.count("M-AFTER-EDIT")
+            refs2 = [oracles.ref_unitary_disorder(_units_of(ua), pair, dissim.delta_empty) for ua in al.unitary_alignments]
+            ref2 = sum(refs2) / avg2
+            try:
+                got3 = float(al.compute_disorder(dissim))
+                if not oracles.close(got3, ref2):
+                    ctx.fail("after-n_tuple-edit:alignment-disorder-mismatch", {"got": got3, "definition": ref2, "attached": case["attach"]},
+                             monitor="M-AFTER-EDIT")
+                for k, ua in enumerate(al.unitary_alignments):
+                    if not oracles.close(float(ua.disorder), refs2[k]):
+                        ctx.fail("after-n_tuple-edit:stored-unitary-disorder-mismatch", {"k": k, "got": float(ua.disorder),
+                                                                                       "definition": refs2[k]}, monitor="M-AFTER-EDIT")
+                        break
+            except Exception as e:
+                ctx.fail_exc(f"after-n_tuple-edit:raises:{type(e).__name__}", e, monitor="M-AFTER-EDIT")
     # whole alignment with permuted slots and permuted unitary alignments
     order2 = list(names)
     ctx.rng.shuffle(order2)
@@ -175,6 +223,9 @@ def run(ctx):
     rng = ctx.rng
     dspecs = cases.gen_pool_specs(rng, ctx.scale(12, 30))
     dspecs.append({"kind": "combined", "alpha": 1.0, "beta": 1.0, "delta": 0.5, "pos": None, "cat": None})
+    # degenerate weights: one of the two terms switched off, the other weight not 1
+    for a_, b_ in ((0.0, 0.5), (0.0, 3.0), (0.5, 0.0), (3.0, 0.0), (0.0, 1.0)):
+        dspecs.append({"kind": "combined", "alpha": a_, "beta": b_, "delta": rng.choice([0.5, 1.0, 2.0]), "pos": None, "cat": None})
     n_cases = ctx.scale(450, 12000)
     for i in range(n_cases):
         if ctx.out_of_time():
@@ -208,7 +259,7 @@ def run(ctx):
                 order = list(names)
                 rng.shuffle(order)
             case = {"type": "handbuilt", "continuum": cspec, "dissim": dspec, "alignment": aspec,
-                    "attach": rng.random() < 0.5, "slot_order": order, "arbitrary_doubles": arbitrary}
+                    "attach": rng.random() < 0.5, "slot_order": order, "arbitrary_doubles": arbitrary, "edit": rng.random() < 0.5}
             ctx.begin_case(case)
             ctx.observe("mode", "handbuilt-attached" if case["attach"] else "handbuilt-detached")
         ctx.observe("annotators", n)
